@@ -825,7 +825,7 @@ PROPS = {
                 "C19_cmp_real_real_numeric", "C19_eq_real_real_numeric", "C19_cmp_mixed", "C19_cmp_mixed_any",
                 "C19_cmp_mixed_legacy_refuted", "C19_oracle_Z_cmp_sf_correct")]),
         n_quick=1500, n_thorough=12000,
-        gates=["pair", "triple", "eq.true.tables_built_differently", "table_table.permuted", "table.depth>=3",
+        gates=["pair", "triple", "eq.true.tables_built_differently", "pair.table_with_grown_history", "table_table.permuted", "table.depth>=3",
                "mixed.int_real", "mixed.int_beyond_2^53", "zero_vs_negzero", "has_nan", "has_nan_key",
                "has_function", "has_function_key", "eq.true.with_function_key", "fn_fn.equal",
                "closure.same_object", "closure.other_object_same_function", "hash0_remapped", "str_str.same_len_differ", "nil_vs_number",
